@@ -174,7 +174,7 @@ def impl_single(c):
     o['pow'] = []
     for n in range(-5, 6):
         pn = p ** n
-        o['pow'].append([mats(pn)[0], flags(pn)[0], bool(pn.single)])
+        o['pow'].append([mats(pn)[0], flags(pn)[0], bool(pn.single) and list(pn.as_matrix().shape) == [3, 3] and list(pn.is_improper.shape) == list(p.is_improper.shape)])
     sd = p(SpatialDimension(x=v[2], y=v[1], z=v[0]))
     o['sd'] = [float(sd.z), float(sd.y), float(sd.x)]
     sdi = p(SpatialDimension(x=v[2], y=v[1], z=v[0]), inverse=True)
@@ -270,7 +270,7 @@ def oracle_single(c, o):
         if fn != (o['fp'] and n % 2 == 1):
             return f'p ** {n}: improper flag {fn} for improper={o["fp"]}'
         if not single:
-            return f'p ** {n} of a single rotation is not single'
+            return f'p ** {n} of a single rotation is not single (single flag, matrix of shape (3, 3), improper flag of the shape it has for p)'
     return None
 
 
